@@ -207,7 +207,7 @@ func genV6Long(rng *rand.Rand) string {
 		s = strings.Join([]string{g(), g(), g(), g(), g(), g(), g()}, ":") + ":" + v4 // one field too many
 	}
 	if rng.IntN(2) == 0 {
-		s += "%" + pick(rng, "eth0", "1", "wlan0.100", "e")
+		s += "%" + pick(rng, "eth0", "1", "wlan0.100", "e", "]", "a]b")
 	}
 	return s
 }
@@ -245,7 +245,7 @@ func genV6(rng *rand.Rand) string {
 	}
 	s := sb.String()
 	if rng.IntN(6) == 0 {
-		s += "%" + pick(rng, "eth0", "", "1", "%", "a:b")
+		s += "%" + pick(rng, "eth0", "", "1", "%", "a:b", "]", "[", "]]", "a]", "]:1", "a]:b", "[x]", ":", "::", "%25", ".", "1.2.3.4", "eth]0")
 	}
 	return s
 }
@@ -330,6 +330,21 @@ func genLongIDN(rng *rand.Rand) string {
 		}
 	}
 	ls = append(ls, pick(rng, "org", "рф", "x1"))
+	return strings.Join(ls, ".")
+}
+
+// genCompactIDN: a name that is long in UTF-8 and short in its ASCII (punycode) form: labels of
+// one repeated multi-byte letter (each further copy costs one ACE byte, two to four UTF-8 bytes).
+// The raw name is longer than 253 bytes (a label longer than 63), the converted one is not, or
+// only just: any length rule applied to the wrong form shows.
+func genCompactIDN(rng *rand.Rand) string {
+	letter := pick(rng, "あ", "я", "é", "中", "😀", "ß")
+	nl := pick(rng, 1, 2, 3, 3, 4, 5)
+	var ls []string
+	for i := 0; i < nl; i++ {
+		ls = append(ls, strings.Repeat(letter, pick(rng, 20, 30, 40, 50, 55, 56, 57, 58, 59, 60))+pick(rng, "", "", "a", "-x"))
+	}
+	ls = append(ls, pick(rng, "org", "рф", "x1", "com"))
 	return strings.Join(ls, ".")
 }
 
